@@ -20,9 +20,88 @@ var contentionNames = []string{"same-call", "same-path", "same-text", "disjoint"
 type planInfo struct {
 	Contention int
 	Cfg        stratCfg
+	Hammer     bool
+}
+
+// genBurstPlan is genPlan for the -race bursts: one burst in 60 is a *hammer*: 4-8 tasks
+// each issue 20-50 calls drawn from a handful of related operations (what a stress test
+// does: sustained contention on the same few inputs), the others are ordinary plans.
+func genBurstPlan(r *rng, refs *refTable) (*Plan, planInfo) {
+	if !r.chance(1, 60) {
+		return genPlan(r, refs)
+	}
+	if p, info, ok := hammerPlan(r, refs, 4+r.intn(5), 20, 30); ok {
+		return p, info
+	}
+	return genPlan(r, refs)
+}
+
+// hammerPlan: nTasks tasks each issue minOps..minOps+spanOps calls drawn from a handful of
+// related, preferably expensive (failing, multi-line) operations.
+func hammerPlan(r *rng, refs *refTable, nTasks, minOps, spanOps int) (*Plan, planInfo, bool) {
+	var info planInfo
+	p := &Plan{}
+	if refs == nil {
+		return nil, info, false
+	}
+	var cand []int32
+	switch r.intn(3) {
+	case 0:
+		if refs != nil && len(refs.rareSites) > 0 {
+			info.Contention = cRareSite
+			cand = refs.siteList[refs.rareSites[r.intn(len(refs.rareSites))]]
+		}
+	case 1:
+		info.Contention = cSameFamily
+		if l := pool.byClass[clsSibling]; len(l) > 0 {
+			cand = pool.byFamily[pool.inputs[pool.ops[l[r.intn(len(l))]].Input].family]
+		}
+	default:
+		info.Contention = cSamePath
+		cand = pool.byPath[uint8(r.intn(3))]
+	}
+	if len(cand) == 0 {
+		return nil, info, false
+	}
+	// a handful of operations, the expensive ones (large failing inputs) preferred
+	var set []opKey
+	for tries := 0; tries < 64 && len(set) < 4+r.intn(5); tries++ {
+		k := pool.ops[cand[r.intn(len(cand))]]
+		if n, ok := refs.steps(k); ok && (n < 3000 && tries < 40 || n > 150_000) {
+			continue // prefer the bigger (failing, multi-line) inputs, but not the huge ones
+		}
+		set = append(set, k)
+	}
+	if len(set) == 0 {
+		return nil, info, false
+	}
+	for t := 0; t < nTasks; t++ {
+		var tp TaskPlan
+		n := minOps + r.intn(spanOps)
+		for i := 0; i < n; i++ {
+			tp.Ops = append(tp.Ops, OpPlan{Key: set[r.intn(len(set))], Shared: -1, Fresh: r.chance(1, 2)})
+		}
+		p.Tasks = append(p.Tasks, tp)
+	}
+	info.Hammer = true
+	return p, info, true
 }
 
 func genPlan(r *rng, refs *refTable) (*Plan, planInfo) {
+	// one serial run in 50 is a hammer too: sustained contention on a few related calls,
+	// preempted where the code is rare
+	if refs != nil && r.chance(1, 50) {
+		if p, info, ok := hammerPlan(r, refs, 2+r.intn(3), 8, 14); ok {
+			c := &info.Cfg
+			c.Gran = 0xff
+			if r.chance(2, 3) {
+				c.Kind, c.P = sRare, []int{200, 1000, 5000}[r.intn(3)]
+			} else {
+				c.Kind, c.P = sRandom, []int{50, 200, 1000, 4000}[r.intn(4)]
+			}
+			return p, info
+		}
+	}
 	var info planInfo
 	p := &Plan{}
 	nTasks := 2 + r.intn(3)
